@@ -102,3 +102,294 @@ Proof.
 Qed.
 
 End RList.
+
+(** * Part 2: the representation relation between bucket rows and the window *)
+Notation st := (@adwin_st NumR).
+
+(** bucket [b] = (total, variance) summarises the chunk [c] of [ne] consecutive inputs exactly *)
+Definition rep_bucket (ne : Z) (b : R * R) (c : list R) : Prop :=
+  Z.of_nat (length c) = ne /\ fst b = sum c /\ snd b = sqdev (mean c) c.
+
+(** the buckets of a row, oldest first, summarise consecutive chunks (of [ne] inputs each) of [w] *)
+Fixpoint rep_row (ne : Z) (r : list (R * R)) (w : list R) : Prop :=
+  match r with
+  | [] => w = []
+  | b :: r' => exists c w', w = c ++ w' /\ rep_bucket ne b c /\ rep_row ne r' w'
+  end.
+
+(** rows: [w = w_older ++ w_row]; the first row (bucket size [ne]) holds the newest part, the
+    remaining rows (bucket sizes [2 ne], [4 ne], ...) hold the older part *)
+Fixpoint rep_rows (ne : Z) (rows : list (list (R * R))) (w : list R) : Prop :=
+  match rows with
+  | [] => w = []
+  | r :: rest => exists wo wr, w = wo ++ wr /\ rep_row ne r wr /\ rep_rows (2 * ne) rest wo
+  end.
+
+(** sum_i 2^i * |row i|, starting at level [i] *)
+Fixpoint weight_from (i : nat) (rows : list (list (R * R))) : Z :=
+  match rows with
+  | [] => 0
+  | r :: rest => pow2 i * Z.of_nat (length r) + weight_from (S i) rest
+  end.
+
+(** the tail row (oldest data) is not empty *)
+Fixpoint tail_ne (rows : list (list (R * R))) : Prop :=
+  match rows with
+  | [] => False
+  | [r] => r <> []
+  | _ :: rest => tail_ne rest
+  end.
+Definition tail_ok (rows : list (list (R * R))) : Prop := tail_ne rows \/ rows = [[]].
+
+Lemma M2_nil : M2 [] = 0%R.
+Proof. rewrite M2_sqdev. reflexivity. Qed.
+
+Lemma rep_bucket_M2 ne b c :
+  rep_bucket ne b c <-> Z.of_nat (length c) = ne /\ fst b = sum c /\ snd b = M2 c.
+Proof. unfold rep_bucket. rewrite M2_sqdev. tauto. Qed.
+
+Lemma rep_bucket_sample x : rep_bucket 1 (x, 0%R) [x].
+Proof.
+  apply rep_bucket_M2. split; [reflexivity|]. split; cbn [fst snd sum].
+  - lra.
+  - symmetry. apply M2_single.
+Qed.
+
+Lemma merge_eq ne (b0 b1 : R * R) :
+  @merge NumR ne b0 b1 =
+  (fst b0 + fst b1,
+   snd b0 + snd b1 + IZR ne * (fst b0 / IZR ne - fst b1 / IZR ne) * (fst b0 / IZR ne - fst b1 / IZR ne) / 2)%R.
+Proof. reflexivity. Qed.
+
+Lemma merge_rep ne b0 b1 c0 c1 : 0 < ne ->
+  rep_bucket ne b0 c0 -> rep_bucket ne b1 c1 -> rep_bucket (2 * ne) (@merge NumR ne b0 b1) (c0 ++ c1).
+Proof.
+  intros Hne H0 H1. apply rep_bucket_M2 in H0 as (L0 & T0 & V0). apply rep_bucket_M2 in H1 as (L1 & T1 & V1).
+  apply rep_bucket_M2. rewrite merge_eq. cbn [fst snd]. split; [rewrite app_length; lia|]. split.
+  - rewrite sum_app. lra.
+  - rewrite T0, T1, V0, V1. symmetry. apply merge_step; [symmetry; assumption | symmetry; assumption | assumption].
+Qed.
+
+Lemma rep_row_single ne b c : rep_bucket ne b c -> rep_row ne [b] c.
+Proof. intros H. exists c, []. split; [symmetry; apply app_nil_r|]. split; [exact H | reflexivity]. Qed.
+
+Lemma rep_row_app ne : forall r1 r2 w1 w2,
+  rep_row ne r1 w1 -> rep_row ne r2 w2 -> rep_row ne (r1 ++ r2) (w1 ++ w2).
+Proof.
+  induction r1 as [|b r1 IH]; intros r2 w1 w2 H1 H2.
+  - cbn [rep_row] in H1. subst w1. exact H2.
+  - destruct H1 as (c & w' & -> & Hb & Hr). cbn [app rep_row]. exists c, (w' ++ w2).
+    split; [symmetry; apply app_assoc|]. split; [exact Hb | apply IH; assumption].
+Qed.
+
+Lemma rep_row_len ne : forall r w, rep_row ne r w -> Z.of_nat (length w) = ne * Z.of_nat (length r).
+Proof.
+  induction r as [|b r IH]; intros w H.
+  - cbn [rep_row] in H. subst w. cbn [length]. lia.
+  - destruct H as (c & w' & -> & (Hl & _) & Hr). apply IH in Hr. rewrite app_length. cbn [length]. lia.
+Qed.
+
+Lemma pow2_S i : pow2 (S i) = 2 * pow2 i.
+Proof. unfold pow2. rewrite Nat2Z.inj_succ, Z.pow_succ_r; lia. Qed.
+
+Lemma rep_rows_len : forall rows i w, rep_rows (pow2 i) rows w -> Z.of_nat (length w) = weight_from i rows.
+Proof.
+  induction rows as [|r rest IH]; intros i w H.
+  - cbn [rep_rows] in H. subst w. reflexivity.
+  - destruct H as (wo & wr & -> & Hr & Hrest). rewrite <- pow2_S in Hrest. apply IH in Hrest.
+    apply rep_row_len in Hr. rewrite app_length. cbn [weight_from]. lia.
+Qed.
+
+(** * Part 3: preservation *)
+
+(** ** compress *)
+Lemma compress_rep M : forall rest ne r w, 0 < ne ->
+  rep_rows ne (r :: rest) w -> rep_rows ne (@compress NumR M ne r rest) w.
+Proof.
+  induction rest as [|nx rest' IH]; intros ne r w Hne Hrep.
+  - cbn [compress]. destruct (Z.eqb _ _); [|exact Hrep].
+    destruct r as [|b0 [|b1 r']]; try exact Hrep.
+    destruct Hrep as (wo & wr & -> & Hr & Hrest). cbn [rep_rows] in Hrest. subst wo.
+    destruct Hr as (c0 & w0 & -> & Hb0 & Hr). destruct Hr as (c1 & w1 & -> & Hb1 & Hr).
+    exists (c0 ++ c1), w1. split; [cbn [app]; rewrite app_assoc; reflexivity|]. split; [exact Hr|].
+    exists [], (c0 ++ c1). split; [reflexivity|]. split; [|reflexivity].
+    apply rep_row_single. apply merge_rep; assumption.
+  - cbn [compress]. destruct (Z.eqb _ _); [|exact Hrep].
+    destruct r as [|b0 [|b1 r']]; try exact Hrep.
+    destruct Hrep as (wo & wr & -> & Hr & Hrest).
+    destruct Hr as (c0 & w0 & -> & Hb0 & Hr). destruct Hr as (c1 & w1 & -> & Hb1 & Hr).
+    destruct Hrest as (woo & wnx & -> & Hnx & Hrest').
+    assert (Hnew : rep_rows (2 * ne) ((nx ++ [@merge NumR ne b0 b1]) :: rest') ((woo ++ wnx) ++ c0 ++ c1)).
+    { exists woo, (wnx ++ c0 ++ c1). split; [symmetry; apply app_assoc|]. split; [|exact Hrest'].
+      apply rep_row_app; [exact Hnx|]. apply rep_row_single. apply merge_rep; assumption. }
+    assert (Hw : (woo ++ wnx) ++ c0 ++ c1 ++ w1 = ((woo ++ wnx) ++ c0 ++ c1) ++ w1)
+      by (rewrite !app_assoc; reflexivity).
+    destruct (Z.leb _ _).
+    + exists ((woo ++ wnx) ++ c0 ++ c1), w1. split; [exact Hw|]. split; [exact Hr | exact Hnew].
+    + exists ((woo ++ wnx) ++ c0 ++ c1), w1. split; [exact Hw|]. split; [exact Hr|].
+      apply IH; [lia | exact Hnew].
+Qed.
+
+Lemma tail_ne_cons r rest : rest <> [] -> tail_ne (r :: rest) <-> tail_ne rest.
+Proof. destruct rest; [congruence|]. intros _. reflexivity. Qed.
+
+Lemma compress_nonnil M ne r rest : @compress NumR M ne r rest <> [].
+Proof.
+  destruct rest; cbn [compress]; destruct (Z.eqb _ _); try discriminate;
+    destruct r as [|? [|? ?]]; try discriminate.
+  destruct (Z.leb _ _); discriminate.
+Qed.
+
+Lemma compress_tail_ne M : forall rest ne r,
+  tail_ne (r :: rest) -> tail_ne (@compress NumR M ne r rest).
+Proof.
+  induction rest as [|nx rest' IH]; intros ne r Ht.
+  - cbn [compress]. destruct (Z.eqb _ _); [|exact Ht].
+    destruct r as [|b0 [|b1 r']]; try exact Ht. cbn [tail_ne]. discriminate.
+  - cbn [compress]. destruct (Z.eqb _ _); [|exact Ht].
+    destruct r as [|b0 [|b1 r']]; try exact Ht.
+    apply tail_ne_cons in Ht; [|discriminate].
+    assert (Hnew : tail_ne ((nx ++ [@merge NumR ne b0 b1]) :: rest')).
+    { destruct rest' as [|r2 rest2]; [cbn [tail_ne]; destruct nx; discriminate | exact Ht]. }
+    destruct (Z.leb _ _).
+    + apply tail_ne_cons; [discriminate | exact Hnew].
+    + apply tail_ne_cons; [|apply IH; exact Hnew].
+      apply compress_nonnil.
+Qed.
+
+(** ** pop_tail_bucket / drop_empty_tail *)
+Lemma pow2_0 : pow2 0 = 1.
+Proof. reflexivity. Qed.
+
+Lemma pop_rep : forall rows ne w, tail_ne rows -> rep_rows ne rows w ->
+  exists (b : R * R) (rows' : list (list (R * R))) c w',
+    @pop_tail_bucket NumR rows = (Some b, rows') /\ w = c ++ w' /\
+    rep_bucket (ne * pow2 (length rows - 1)) b c /\ rep_rows ne rows' w' /\
+    rows' <> [] /\ S (@n_buckets NumR rows') = @n_buckets NumR rows.
+Proof.
+  induction rows as [|r rest IH]; intros ne w Ht Hrep; [destruct Ht|].
+  destruct rest as [|r2 rest].
+  - cbn [tail_ne] in Ht. destruct r as [|b r']; [congruence|].
+    destruct Hrep as (wo & wr & -> & Hr & Hrest). cbn [rep_rows] in Hrest. subst wo.
+    destruct Hr as (c & w' & -> & Hb & Hr).
+    exists b, [r'], c, w'. split; [reflexivity|]. split; [reflexivity|].
+    split; [cbn [length Nat.sub]; rewrite pow2_0, Z.mul_1_r; exact Hb|].
+    split; [exists [], w'; split; [reflexivity|]; split; [exact Hr | reflexivity]|].
+    split; [discriminate|]. unfold n_buckets. cbn [concat]. rewrite !app_nil_r. reflexivity.
+  - destruct Hrep as (wo & wr & -> & Hr & Hrest).
+    destruct (IH (2 * ne) wo Ht Hrest) as (b & rest' & c & wo' & Hpop & -> & Hb & Hrest' & Hnn & Hcnt).
+    exists b, (r :: rest'), c, (wo' ++ wr).
+    split. { change (@pop_tail_bucket NumR (r :: r2 :: rest))
+               with (let '(b, rest') := @pop_tail_bucket NumR (r2 :: rest) in (b, r :: rest')).
+             rewrite Hpop. reflexivity. }
+    split; [symmetry; apply app_assoc|].
+    split. { replace (ne * pow2 (length (r :: r2 :: rest) - 1))
+               with (2 * ne * pow2 (length (r2 :: rest) - 1)); [exact Hb|].
+             cbn [length Nat.sub]. rewrite Nat.sub_0_r, pow2_S. lia. }
+    split; [exists wo', wr; split; [reflexivity|]; split; assumption|].
+    split; [discriminate|].
+    unfold n_buckets in *. cbn [concat] in Hcnt |- *. rewrite !app_length in *. lia.
+Qed.
+
+Lemma drop_empty_tail_cons2 (r r2 : list (R * R)) rest :
+  @drop_empty_tail NumR (r :: r2 :: rest) =
+  match @drop_empty_tail NumR (r2 :: rest) with
+  | [[]] => [r]
+  | rest' => r :: rest'
+  end.
+Proof. reflexivity. Qed.
+
+Lemma drop_rep : forall rows ne w, rep_rows ne rows w -> rep_rows ne (@drop_empty_tail NumR rows) w.
+Proof.
+  induction rows as [|r rest IH]; intros ne w Hrep; [exact Hrep|].
+  destruct rest as [|r2 rest]; [exact Hrep|].
+  rewrite drop_empty_tail_cons2.
+  destruct Hrep as (wo & wr & -> & Hr & Hrest). apply IH in Hrest.
+  destruct (@drop_empty_tail NumR (r2 :: rest)) as [|[|b l] [|r3 l3]].
+  - exists wo, wr. split; [reflexivity|]. split; assumption.
+  - destruct Hrest as (wo1 & wr1 & -> & Hr1 & Hrest1). cbn [rep_row] in Hr1. cbn [rep_rows] in Hrest1.
+    subst. exists [], wr. split; [reflexivity|]. split; [exact Hr | reflexivity].
+  - exists wo, wr. split; [reflexivity|]. split; assumption.
+  - exists wo, wr. split; [reflexivity|]. split; assumption.
+  - exists wo, wr. split; [reflexivity|]. split; assumption.
+Qed.
+
+Lemma drop_tail_ok : forall rows, rows <> [] -> tail_ok (@drop_empty_tail NumR rows).
+Proof.
+  induction rows as [|r rest IH]; intros Hn; [congruence|].
+  destruct rest as [|r2 rest].
+  - cbn [drop_empty_tail]. destruct r; [right; reflexivity | left; cbn [tail_ne]; discriminate].
+  - rewrite drop_empty_tail_cons2.
+    destruct (IH ltac:(discriminate)) as [Ht | He].
+    + destruct (@drop_empty_tail NumR (r2 :: rest)) as [|[|b l] [|r3 l3]]; try (left; exact Ht).
+      * destruct Ht.
+      * exfalso. apply Ht. reflexivity.
+    + rewrite He. destruct r; [right; reflexivity | left; cbn [tail_ne]; discriminate].
+Qed.
+
+Lemma drop_count : forall rows, @n_buckets NumR (@drop_empty_tail NumR rows) = @n_buckets NumR rows.
+Proof.
+  induction rows as [|r rest IH]; [reflexivity|].
+  destruct rest as [|r2 rest]; [reflexivity|].
+  rewrite drop_empty_tail_cons2. unfold n_buckets in *. cbn [concat] in *.
+  rewrite (app_length r), <- IH.
+  destruct (@drop_empty_tail NumR (r2 :: rest)) as [|[|b l] [|r3 l3]]; cbn [concat]; rewrite ?app_length; cbn [length]; lia.
+Qed.
+
+(** ** the scan: a cut is only found if the part newer than the oldest bucket has
+    at least [a_sub_thresh] elements *)
+Fixpoint tag (ne : Z) (is_row0 : bool) (l : list (R * R)) : list (Z * (R * R) * bool) :=
+  match l with
+  | [] => []
+  | [b] => [(ne, b, is_row0)]
+  | b :: l' => (ne, b, false) :: tag ne is_row0 l'
+  end.
+
+Lemma flat_rows_cons ne (r : list (R * R)) rest f :
+  @flat_rows NumR ne (r :: rest) f = @flat_rows NumR (2 * ne) rest false ++ tag ne f r.
+Proof. reflexivity. Qed.
+
+Lemma tag_length ne f : forall l, length (tag ne f l) = length l.
+Proof.
+  induction l as [|b l IH]; [reflexivity|]. destruct l as [|b' l']; [reflexivity|].
+  change (tag ne f (b :: b' :: l')) with ((ne, b, false) :: tag ne f (b' :: l')).
+  cbn [length]. rewrite IH. reflexivity.
+Qed.
+
+Lemma tag_sizes ne f : forall l, Forall (fun e => fst (fst e) = ne) (tag ne f l).
+Proof.
+  induction l as [|b l IH]; [constructor|]. destruct l as [|b' l']; [repeat constructor|].
+  change (tag ne f (b :: b' :: l')) with ((ne, b, false) :: tag ne f (b' :: l')).
+  constructor; [reflexivity | exact IH].
+Qed.
+
+Lemma flat_rows_length : forall rows ne f, length (@flat_rows NumR ne rows f) = @n_buckets NumR rows.
+Proof.
+  induction rows as [|r rest IH]; intros ne f; [reflexivity|].
+  rewrite flat_rows_cons, app_length, IH, tag_length. unfold n_buckets. cbn [concat].
+  rewrite app_length. lia.
+Qed.
+
+Lemma flat_rows_sizes : forall rows ne f, 0 <= ne ->
+  Forall (fun e => 0 <= fst (fst e)) (@flat_rows NumR ne rows f).
+Proof.
+  induction rows as [|r rest IH]; intros ne f Hne; [constructor|].
+  rewrite flat_rows_cons. apply Forall_app. split; [apply IH; lia|].
+  eapply Forall_impl; [|apply tag_sizes]. cbv beta. intros e ->. exact Hne.
+Qed.
+
+Definition hd_size (bs : list (Z * (R * R) * bool)) : Z :=
+  match bs with [] => 0 | e :: _ => fst (fst e) end.
+
+Lemma flat_rows_hd : forall rows ne f, tail_ne rows ->
+  @flat_rows NumR ne rows f <> [] /\ hd_size (@flat_rows NumR ne rows f) = ne * pow2 (length rows - 1).
+Proof.
+  induction rows as [|r rest IH]; intros ne f Ht; [destruct Ht|].
+  rewrite flat_rows_cons. destruct rest as [|r2 rest].
+  - cbn [tail_ne] in Ht. destruct r as [|b [|b' l']]; [congruence| |];
+      (split; [discriminate|]); cbn [length Nat.sub]; rewrite pow2_0; cbn [flat_rows app tag hd_size fst]; lia.
+  - destruct (IH (2 * ne) false Ht) as [Hnn Hhd].
+    destruct (@flat_rows NumR (2 * ne) (r2 :: rest) false) as [|e l] eqn:E; [congruence|].
+    split; [discriminate|]. cbn [app hd_size] in *. rewrite Hhd.
+    cbn [length Nat.sub]. rewrite Nat.sub_0_r, pow2_S. lia.
+Qed.
